@@ -75,7 +75,9 @@ def encode_gridded(g):
                     yyjjj(t1[2]), t1[3])))
     out.append(pack_record(struct.pack(
         '>ffiffffiiiiifff', g['plon'], g['plat'], g['iutm'], g['xorg'],
-        g['yorg'], g['delx'], g['dely'], nx, ny, nz, g['iproj'], g['istag'],
+        g['yorg'], g['delx'], g['dely'], nx, ny,
+        # surface files are also produced with 0 layers in the header
+        g['hdr_nz'] if g.get('hdr_nz') is not None else nz, g['iproj'], g['istag'],
         g['tlat1'], g['tlat2'], 0.0)))
     out.append(pack_record(struct.pack('>iiii', 1, 1, nx, ny)))
     out.append(pack_record(b''.join(str4(s, 10) for s in sp)))
